@@ -6,7 +6,7 @@
    processing orders of the CHILDREN give semantically equal results, and that the preprocessing stages are
    order-insensitive. *)
 From Coq Require Import List String QArith Permutation.
-From Bq Require Import Expr ExprFacts RepModel Routine Compare Compile CompileTop EvaluateFacts ListingFacts LocalsOrderFacts InputsOrderFacts.
+From Bq Require Import Expr ExprFacts RepModel Routine Compare Compile CompileTop EvaluateFacts ListingFacts LocalsOrderFacts InputsOrderFacts SiblingOrderFacts.
 Import ListNotations.
 Open Scope string_scope.
 
@@ -110,3 +110,36 @@ Example C09_inputs_listing_nonvacuous :
   exists t, go ev_subst statusE fv 2 leaf i1 = Ok t /\ go ev_subst statusE fv 2 leaf i2 = Ok (set_inputs expr t i2) /\
             map (fun nr => snd (snd nr)) (ct_resources t) = [eadd (ESym "N") (emul (EZ 2) (ESym "M"))].
 Proof. eexists. repeat split; vm_compute; reflexivity. Qed.
+
+(* ---------- the order in which the children are PROCESSED ---------- *)
+
+(* two neighbouring children of the processing order that are not wired to each other, and feed no common port, can be
+   compiled in either order: the same two compiled children, the same later children (except possibly for how the stored
+   copy of their inputs dictionary is listed, which C09_inputs_dictionary_listing_free shows to be immaterial), and a
+   parameter map that holds the same value under every key.  Any two topological processing orders are connected by such
+   swaps. *)
+Theorem C09_independent_siblings_commute :
+  forall (D : Type) (ev : list (string * D) -> expr -> result D) (statusD : D -> D -> cstatus) (fvD : D -> list string),
+    (forall env env' e, (forall k, lookup k env = lookup k env') -> ev env e = ev env' e) ->
+    forall fuel a b rest children conns pm acc pm1 kids,
+      no_wire conns a b -> no_wire conns b a -> targets_apart conns a b ->
+      compile_children (go ev statusD fvD fuel) (a :: b :: rest) children conns pm acc = Ok (pm1, kids) ->
+      exists ta tb restk restk' pm2,
+        kids = (rev acc ++ ta :: tb :: restk)%list /\
+        compile_children (go ev statusD fvD fuel) (b :: a :: rest) children conns pm acc = Ok (pm2, (rev acc ++ tb :: ta :: restk')%list) /\
+        Forall2 (tree_sim D) restk restk' /\ pm_rel D pm1 pm2.
+Proof. exact go_children_swap. Qed.
+Print Assumptions C09_independent_siblings_commute.
+
+Example C09_siblings_nonvacuous :
+  let leaf n := Routine n None ["x"] [] [] [] [Build_resource "T" RAdditive (emul (EZ 2) (ESym "x"))] [] None [] [] in
+  let pm := (@nil (string * expr), [("a", [("x", ESym "N")]); ("b", [("x", ESym "M")])]) in
+  no_wire [] "a" "b" /\ no_wire [] "b" "a" /\ targets_apart [] "a" "b" /\
+  exists pm1 ta tb,
+    compile_children (go ev_subst statusE fv 2) ["a"; "b"] [leaf "a"; leaf "b"] [] pm [] = Ok (pm1, [ta; tb]) /\
+    compile_children (go ev_subst statusE fv 2) ["b"; "a"] [leaf "a"; leaf "b"] [] pm [] = Ok (pm1, [tb; ta]) /\
+    map (fun nr => snd (snd nr)) (ct_resources ta) = [emul (EZ 2) (ESym "N")].
+Proof.
+  cbn zeta. split; [intros sp tp []|]. split; [intros sp tp []|]. split; [intros e1 e2 []|].
+  eexists. eexists. eexists. repeat split; vm_compute; reflexivity.
+Qed.
